@@ -107,7 +107,7 @@ hand to `optimize_type`:
   `unknown` is accepted anywhere (more liberal than `detect`, which only produces it under list/dict).
 * `rawF` (field of a merged model): `rawD`, possibly under one `Optional`.
 * `Raw`: a field dict whose fields are `rawF`, or a `rawF` type.
-The normal form is `nf` of `Sem.lean`; note that it admits `Optional[Unknown]` (`.opt .unknown`), the
+The normal form is `nf` of `Sem.lean`; note that it accepts `Optional[Unknown]` (`.opt .unknown`), the
 result of the repaired `_optimize_union` for "only empty containers and nulls" (see the example below). -/
 
 /-- `_detect_type` only produces raw metadata -/
@@ -115,11 +115,32 @@ theorem detect_raw (cfg : GenCfg) (o : GenOracles) (cd : Bool) (v : Json) (t : T
     (h : detect cfg o cd v = .ok t) : Raw cfg t = true :=
   rawD_Raw (detect_rawD cfg o cd v t h)
 
+/-- oracles for a concrete run: no pseudo-type parser accepts, no key regex matches -/
+def exOr : GenOracles := ⟨fun _ _ => some false, fun _ _ => some false, StrOracle.default⟩
+def exJson : Json := .obj [("a", .arr [.int 1, .str "x", .null]), ("b", .arr [])]
+
+set_option linter.unusedSimpArgs false in
+/-- a concrete `_detect_type` run … -/
+theorem exDetect : detect exCfg exOr true exJson =
+    .ok (.obj [("a", .list (.union [.int, .null, .lit false ["x"]])), ("b", .list .unknown)]) := by
+  simp +decide [exJson, detect, detectList, convertFields, anyRegexMatches, allKeysMatch, exCfg, exOr, detectStr,
+    detectStr.go, wrapElems, mkLit, mkUnionMembers, flattenUnion, handleType, hashStr, insertUniq, bind,
+    Except.bind, pure, Except.pure, List.foldlM]
+
+/-- … whose result is `Raw` (non-vacuity of `Raw` on a term actually built by `detect`) -/
+example : Raw exCfg (.obj [("a", .list (.union [.int, .null, .lit false ["x"]])), ("b", .list .unknown)]) = true :=
+  detect_raw exCfg exOr true exJson _ exDetect
+
 /-- `merge_field_sets` of detected field sets is raw -/
 theorem merge_raw (cfg : GenCfg) (e : EqEnv) (sets : List Fields) (fields : Fields)
     (hsets : ∀ m ∈ sets, ∀ kv ∈ m, rawD cfg kv.2 = true)
     (h : mergeFieldSets cfg.lit e sets = .ok fields) : Raw cfg (.obj fields) = true :=
   (mergeFieldSets_rawF hsets h).Raw
+
+/-- why `Raw` excludes the (never built) empty non-overflowed literal: `DUnion(StringLiteral(set()))` would be an
+    empty union. Every `DUnion` of raw members is non-empty (`C08P.mkUM_ne_nil`, used in `merge_raw`). -/
+example : mkUnionMembers ⟨15, 20⟩ [.lit false []] = [] := by
+  simp +decide [mkUnionMembers, flattenUnion, handleType]
 
 /-- **C08, main part**: whatever the fuel and the comparison environment, if `optimize_type` returns on raw
     metadata, the result is in normal form. -/
